@@ -29,7 +29,7 @@ def check(run, replay):
         "ocaml/driver.ml (I/O + int<->N conversion), harness/vh_common.h + vh_c23.cpp (decode a case, call matchglob / Suppression::isSuppressed / SuppressionList::isSuppressed / CppCheck::verifLogger().reportErr)",
         "PathMatch::match is a parameter `pm` of the theorems; the executable instance pm_plain (equality) is exercised only on plain file names (general paths: C31)",
         "modelled, not verified: lib/utils.cpp matchglob, lib/suppressions.cpp Suppression::isSuppressed/isMatch/SuppressionList::isSuppressed, lib/cppcheck.cpp CppCheckLogger::reportErr (non-safety mode, library.reportErrors true, no remark comments, macro names empty at logger level)",
-        "termination of matchglob is not proved: the theorem is `if the machine answers within its fuel, the answer is the language`; fuel exhaustion is a distinct result and is counted, never compared",
+        "termination of matchglob is proved (C23_matchglob_total: fuel (|name|+1)^(stars+1)+1 always suffices); the executable entry point still runs with a smaller polynomial fuel and reports exhaustion as a distinct result, never compared",
     ]
     run.assumptions += ["g++ compiles /repo faithfully", "hook commit 746d6ae (verifLogger/verifExitCode) only exposes the existing logger"]
     run.extra["rule"] = ("glob: patterns/names over {a,b,*,?,.} (+10% arbitrary bytes) len 0-8, half of the names derived from the pattern "
